@@ -832,6 +832,7 @@ func (vc *VC) loopEnv(s *State, st ast.Stmt, path string, old *State) *SpecEnv {
 	}
 	env.scope = fr.info.Scopes[st]
 	env.pos = body.Lbrace
+	env.loopPath = path
 	// role aliases
 	for _, role := range []string{"$i", "$k", "$v", "$visited", "$xs"} {
 		if t, ok := s.ghost[role+"@"+path]; ok {
@@ -1021,12 +1022,23 @@ func (vc *VC) execRange(s *State, x *ast.RangeStmt, label string) {
 		}
 		tgt := &jumpTarget{label: label, isLoop: true}
 		fr.targets = append(fr.targets, tgt)
+		var iterStart *State
+		if ls != nil && len(ls.Steps) > 0 {
+			iterStart = body.clone()
+		}
 		vc.execBlock(body, x.Body.List)
 		fr.targets = fr.targets[:len(fr.targets)-1]
 		back := vc.mergeStates(append([]*State{body}, tgt.continues...))
 		if back != nil {
 			back.ghost[iName] = Add(i, IntLit(1))
 			vc.checkInvariants(back, x, ls, path, "step", entry, bound(back))
+			if iterStart != nil {
+				env := vc.loopEnv(back, x, path, entry)
+				env.pre = iterStart
+				for si, st := range ls.Steps {
+					vc.obligeKeep(back, "step", fmt.Sprintf("loop%s:step%d", path, si+1), "loop transition: "+st.Src, x.Pos(), env.evalBool(st))
+				}
+			}
 		}
 		// exit states keep the ghost index (== n on normal exit)
 		vc.join(s, append([]*State{exit}, tgt.breaks...)...)
